@@ -28,6 +28,9 @@ impl Iterator for BasicLexer {
 
     fn next(&mut self) -> Option<Self::Item> {
         if let Some(t) = self.pending.pop_front() {
+            if matches!(t, Token::Word(Word::Rem1)) {
+                self.remark = true;
+            }
             return Some(t);
         }
         let pk = self.chars.front()?;
